@@ -65,14 +65,24 @@ static enum bufferevent_filter_result h_filter(struct evbuffer *src, struct evbu
 	k = vp_size();
 	__CPROVER_assume(k <= avail && (lim < 0 || k <= (size_t)lim));
 	if (k) {
+#ifdef VP_SINK_BYTES
+		/* a real transformation: every byte is XORed with 0x5a on its way through the filter */
+		unsigned char tmp[VP_SINK_BYTES]; size_t j; int n;
+		n = evbuffer_remove(src, tmp, k);
+		VP_ASSERT(n == (int)k, "harness: filter could not take its bytes");
+		for (j = 0; j < VP_SINK_BYTES; j++) tmp[j] ^= 0x5a;
+		n = evbuffer_add(dst, tmp, k);
+		VP_ASSERT(n == 0, "harness: filter could not emit its bytes");
+#else
 		int n = evbuffer_remove_buffer(src, dst, k);
 		VP_ASSERT(n == (int)k, "harness: filter could not move its bytes");
+#endif
 	}
 	f_moved[f_calls] = k; f_moved_total += (k != 0);
 	f_calls++;
 	if (is_out) f_out_calls++; else f_in_calls++;
 	r = (unsigned)vp_range(0, 2);
-	if (k) return r == 0 ? BEV_NEED_MORE : BEV_OK;           /* consumed something */
+	if (k) return BEV_OK;                                     /* produced output: BEV_NEED_MORE would mean "nothing produced yet" */
 	return r == 0 ? BEV_ERROR : BEV_NEED_MORE;                /* consumed nothing: must not claim progress */
 }
 static enum bufferevent_filter_result h_filter_in(struct evbuffer *src, struct evbuffer *dst, ev_ssize_t lim, enum bufferevent_flush_mode mode, void *ctx) { return h_filter(src, dst, lim, mode, ctx, 0); }
@@ -97,19 +107,48 @@ static void setup_filter(void)
 #ifndef C18_MODE
 #define C18_MODE BEV_NORMAL
 #endif
+/* lengths and marks are bounded here (three chained transfers of 64-bit symbolic sizes are beyond the SAT back end;
+ * the arithmetic in be_filter_process_* is the same subtraction/comparison at every width) */
+#ifndef C18_LEN_MAX
+#ifdef VP_SINK_BYTES
+#define C18_LEN_MAX (VP_SINK_BYTES / 2)
+#else
+#define C18_LEN_MAX 0xffff
+#endif
+#endif
+#ifdef VP_SINK_BYTES
+static unsigned char pre_a[VP_SINK_BYTES], pre_b[VP_SINK_BYTES];
+/* after the step: `to` == pre_to[0..T) ++ xor(pre_from[0..moved)), `from` == pre_from[moved..) */
+static void check_bytes(struct evbuffer *from, struct evbuffer *to, size_t Fn, size_t T)
+{
+	size_t T1 = evbuffer_get_length(to), F1 = evbuffer_get_length(from), moved = T1 - T, i;
+	VP_ASSERT(F1 == Fn - moved, "C17: filter step lost or duplicated bytes");
+	for (i = 0; i < VP_SINK_BYTES; i++) {
+		if (i < T) VP_ASSERT(vp_sink_at(to, i) == pre_b[i], "C17: bytes already delivered were modified by the filter step");
+		else if (i < T1) VP_ASSERT(vp_sink_at(to, i) == (unsigned char)(pre_a[i - T] ^ 0x5a), "C17: filtered bytes are not the transformed prefix of the pending bytes, in order");
+		if (i < F1) VP_ASSERT(vp_sink_at(from, i) == pre_a[i + moved], "C17: bytes left behind by the filter are not the unprocessed suffix");
+	}
+}
+#endif
 
 void harness_filter_out(void)
 {
 	size_t U = vp_size(), O = vp_size(), H = vp_size(), wlow = vp_size(), U1, O1;
 	int en = vp_bool(), processed = 0, res;
 	setup_filter();
-	__CPROVER_assume(U <= (size_t)EV_SSIZE_MAX / 4 && O <= (size_t)EV_SSIZE_MAX / 4 && H <= (size_t)EV_SSIZE_MAX);
+	__CPROVER_assume(U <= C18_LEN_MAX && O <= C18_LEN_MAX && H <= C18_LEN_MAX && wlow <= C18_LEN_MAX);
 	bufferevent_setwatermark(g_under, EV_WRITE, 0, H);
 	bufferevent_setwatermark(u_bev[F], EV_WRITE, wlow, 0);
 	if (!en) bufferevent_disable(u_bev[F], EV_WRITE);
+#ifdef VP_SINK_BYTES
+	vp_bytes(pre_a, VP_SINK_BYTES); vp_bytes(pre_b, VP_SINK_BYTES);
+	vp_sink_preset(g_under->output, pre_b, U);
+	vp_sink_preset(u_bev[F]->output, pre_a, O);
+#else
 	vp_sink_preset(g_under->output, NULL, U);
-	if (U) event_add(&g_under->ev_write, NULL);      /* as bufferevent_socket_outbuf_cb leaves it with output pending */
 	vp_sink_preset(u_bev[F]->output, NULL, O);
+#endif
+	if (U) event_add(&g_under->ev_write, NULL);      /* as bufferevent_socket_outbuf_cb leaves it with output pending */
 
 	bufferevent_incref_and_lock_(u_bev[F]);
 	res = be_filter_process_output(g_bevf, C18_MODE, &processed);
@@ -120,6 +159,9 @@ void harness_filter_out(void)
 	VP_ASSERT(!f_bufs_bad && f_in_calls == 0, "C17: output filter called with the wrong buffers");
 	VP_ASSERT(!f_limit_bad, "C18: output filter not given exactly the room below the underlying high write watermark");
 	VP_ASSERT(U1 + O1 == U + O && U1 >= U, "C17: bytes lost or duplicated by output filtering");
+#ifdef VP_SINK_BYTES
+	check_bytes(u_bev[F]->output, g_under->output, O, U);
+#endif
 	if (C18_MODE == BEV_NORMAL) {
 		VP_ASSERT(H == 0 || U1 <= (U > H ? U : H), "C18: the filter wrote past the underlying high write watermark");
 		if (!en || O == 0 || (H != 0 && U >= H))
@@ -144,11 +186,20 @@ void harness_filter_in(void)
 	size_t U = vp_size(), I = vp_size(), H = vp_size(), low = vp_size(), U1, I1;
 	int en = vp_bool(), processed = 0, res;
 	setup_filter();
-	__CPROVER_assume(U <= (size_t)EV_SSIZE_MAX / 4 && I <= (size_t)EV_SSIZE_MAX / 4 && H <= (size_t)EV_SSIZE_MAX);
+	__CPROVER_assume(U <= C18_LEN_MAX && I <= C18_LEN_MAX && H <= C18_LEN_MAX && low <= C18_LEN_MAX);
+#ifdef VP_SINK_BYTES
+	vp_bytes(pre_a, VP_SINK_BYTES); vp_bytes(pre_b, VP_SINK_BYTES);
+	vp_sink_preset(u_bev[F]->input, pre_b, I);
+#else
 	vp_sink_preset(u_bev[F]->input, NULL, I);
+#endif
 	bufferevent_setwatermark(u_bev[F], EV_READ, low, H);
 	if (en) bufferevent_enable(u_bev[F], EV_READ);
+#ifdef VP_SINK_BYTES
+	vp_sink_preset(g_under->input, pre_a, U);
+#else
 	vp_sink_preset(g_under->input, NULL, U);
+#endif
 
 	bufferevent_incref_and_lock_(u_bev[F]);
 	res = be_filter_process_input(g_bevf, C18_MODE, &processed);
@@ -159,6 +210,9 @@ void harness_filter_in(void)
 	VP_ASSERT(!f_bufs_bad && f_out_calls == 0, "C17: input filter called with the wrong buffers");
 	VP_ASSERT(!f_limit_bad, "C18: input filter not given exactly the room below the high read watermark");
 	VP_ASSERT(U1 + I1 == U + I && I1 >= I, "C17: bytes lost or duplicated by input filtering");
+#ifdef VP_SINK_BYTES
+	check_bytes(g_under->input, u_bev[F]->input, U, I);
+#endif
 	if (C18_MODE == BEV_NORMAL) {
 		VP_ASSERT(H == 0 || I1 <= (I > H ? I : H), "C18: filtered input passed the high read watermark");
 		if (!en || (H != 0 && I >= H))
@@ -169,4 +223,45 @@ void harness_filter_in(void)
 	if (f_calls == 0) VP_WITNESS("filter not urged");
 	if (I1 > I && H && I1 == H) VP_WITNESS("input filled exactly to its high read mark");
 	if (f_calls >= 2 && f_moved[0] && f_moved[1]) VP_WITNESS("two productive filter calls");
+}
+
+/* C17: the underlying bufferevent delivers U bytes and then EOF; the filtering bufferevent has a read high-water mark.
+ * "EOF is reported only after every byte written before the shutdown has been delivered."
+ *   -DKF_EXCLUDE_filter_eof : assume nothing is left in the underlying input when the EOF arrives (no mark in the way)
+ *   -DKF_ONLY_filter_eof    : assume something is left (the recorded finding: EOF overtakes it) */
+static size_t eof_left_behind; static int eof_seen;
+static void eof_hook(int who, int kind, short what)
+{
+	(void)who;
+	if (kind == U_EVENT && (what & BEV_EVENT_EOF)) { eof_seen++; eof_left_behind = evbuffer_get_length(g_under->input); }
+}
+void harness_filter_eof(void)
+{
+	size_t U = (size_t)vp_range(1, C18_LEN_MAX), H = (size_t)vp_range(0, C18_LEN_MAX), left;
+	setup_filter();
+	u_hook = eof_hook;
+	bufferevent_setwatermark(u_bev[F], EV_READ, 0, H);
+	bufferevent_enable(u_bev[F], EV_READ);
+#ifdef VP_SINK_BYTES
+	vp_bytes(pre_a, VP_SINK_BYTES);
+	vp_sink_preset(g_under->input, pre_a, U);
+#else
+	vp_sink_preset(g_under->input, NULL, U);
+#endif
+	/* the underlying socket bufferevent read U bytes: it runs its read callback, which is the filter's */
+	be_filter_readcb(g_under, g_bevf);
+	left = evbuffer_get_length(g_under->input);
+#ifdef KF_EXCLUDE_filter_eof
+	__CPROVER_assume(left == 0);
+#endif
+#ifdef KF_ONLY_filter_eof
+	__CPROVER_assume(left != 0);
+#endif
+	VP_ASSERT(u_reads[F] >= 1 || evbuffer_get_length(u_bev[F]->input) == 0, "C17: filtered data buffered but no read callback");
+	/* ... and then saw EOF: it runs its event callback, which is the filter's */
+	be_filter_eventcb(g_under, BEV_EVENT_READING | BEV_EVENT_EOF, g_bevf);
+	VP_ASSERT(eof_seen == 1 && u_last_what[F] == (BEV_EVENT_READING | BEV_EVENT_EOF), "C17: EOF of the underlying bufferevent must be passed on exactly once");
+	VP_ASSERT(eof_left_behind == 0, "C17: EOF reported while bytes received before it are still waiting in the underlying input buffer");
+	VP_ASSERT_NO_LOCKS("filter eof");
+	VP_WITNESS("EOF passed on");
 }
